@@ -1528,6 +1528,82 @@ fn c04_three_memory_cycles_compose() {
 }
 
 // =============================================================================================
+// C09 — glue between the ULA port and the border device (feature precise-border)
+// =============================================================================================
+#[cfg(feature = "precise-border")]
+static mut BORDER_CALLS: u32 = 0;
+#[cfg(feature = "precise-border")]
+static mut BORDER_T: usize = 0;
+#[cfg(feature = "precise-border")]
+static mut BORDER_C: u8 = 0xFF;
+
+/// stands for ZXBorder::set_border (whose own behaviour is decided by the c09_* harnesses of
+/// hooks/core/border.rs): records the time stamp and the colour handed to the device
+#[cfg(feature = "precise-border")]
+fn record_set_border<FB: crate::host::FrameBuffer>(_b: &mut ZXBorder<FB>, clocks: usize, color: ZXColor) {
+    unsafe {
+        BORDER_CALLS += 1;
+        BORDER_T = clocks;
+        BORDER_C = color.into();
+    }
+}
+
+#[cfg(feature = "precise-border")]
+fn border_glue_case(m: ZXMachine) {
+    let mut c = mk_controller(m, FbCtx { wx: 0, wy: 0 }, false, false);
+    // any history: the colour cached for the host and whatever the device remembers are NOT assumed
+    // to agree (they differ at power-on: cache black, device white)
+    c.border_color = crate::verif_hooks::any_color();
+    let t0: usize = kani::any();
+    kani::assume(t0 < m.specs().clocks_frame - 64);
+    c.frame_clocks = t0;
+    let port: u16 = kani::any();
+    let data: u8 = kani::any();
+    let ula = port & 1 == 0 && port & 0xC002 != 0xC000 && port & 0xC002 != 0x8000;
+    unsafe {
+        BORDER_CALLS = 0;
+    }
+    c.write_io(port, data);
+    let t1 = c.frame_clocks;
+    unsafe {
+        if ula {
+            kani::assert(BORDER_CALLS == 1, "c09.glue.every_ula_write_reaches_the_border_device");
+            kani::assert(BORDER_C == data & 7, "c09.glue.device_gets_low_three_bits");
+            kani::assert(t0 <= BORDER_T && BORDER_T <= t1, "c09.glue.time_stamp_inside_the_port_cycle");
+            kani::assert(u8::from(c.border_color) == data & 7, "c09.glue.reported_colour_is_low_three_bits");
+        } else {
+            kani::assert(BORDER_CALLS == 0, "c09.glue.other_ports_do_not_touch_the_border");
+        }
+        kani::cover!(ula && BORDER_CALLS == 1 && u8::from(c.border_color) == 0 && data == 0xF8, "black written with the upper bits set");
+        kani::cover!(!ula && port & 1 == 0, "even port owned by the AY");
+    }
+}
+
+// @harness
+// @prop C09
+// @tier quick
+// @features precise-border
+// @timeout 900
+// @fn ZXController::write_io; ZXController::write_fe; ZXController::set_border_color; ZXController::io_contention_first; ZXController::io_contention_last
+// @sym machine (literal per case), frame time (any, 64 T before the frame end at most), cached border colour (any, not assumed equal to what the device remembers), 16-bit port, data
+// @assert every write to a port that selects the ULA hands the border device exactly one update with colour = data & 7 and a time stamp inside that port cycle, whatever colour was cached before (also when it is the same colour); the colour reported to the host becomes data & 7; writes to other ports never reach the border device
+// @bound one port write; no frame end inside the cycle (frame end handling: c09_frame_protocol)
+// @stub ZXBorder::set_border -> recorder of (time, colour) (its painting is decided by c09_frame_protocol / c09_write_step_*); ZXScreen::process_clocks -> no-op
+// @replay solver-only
+#[cfg(feature = "precise-border")]
+#[kani::proof]
+#[kani::unwind(10)]
+#[kani::stub(crate::zx::video::screen::ZXScreen::process_clocks, noop_screen_clocks)]
+#[kani::stub(crate::zx::video::border::ZXBorder::set_border, record_set_border)]
+fn c09_port_write_reaches_border_device() {
+    if kani::any() {
+        border_glue_case(ZXMachine::Sinclair48K);
+    } else {
+        border_glue_case(ZXMachine::Sinclair128K);
+    }
+}
+
+// =============================================================================================
 // C19 — sample cursor arithmetic at real sample rates (feature sound, no AY)
 // =============================================================================================
 #[cfg(all(feature = "sound", not(feature = "ay")))]
@@ -1626,7 +1702,7 @@ mod c19 {
     // @features sound
     // @timeout 900
     // @fn ZXController::write_io (ULA arm) -> ZXBeeper::change_state; ZXController::wait_internal -> ZXController::frame_pos -> ZXMixer::process
-    // @sym machine (literal per case), port (even, not an AY address), data, a second write to any odd port; frame time fixed (1000)
+    // @sym machine (literal per case), speaker/MIC levels left by earlier writes, port (even, not an AY address), data, a second write to any odd port; frame time fixed (1000)
     // @assert an OUT to the ULA port latches speaker = bit 4 and MIC = bit 3 of the data before the next mixer step of that very port cycle, so samples generated from then on carry the new level
     // @bound one port write
     // @stub ZXMixer::process -> no-op (its effect is c19_mixer_step_*); ZXController::frame_pos -> constant (only the stubbed mixer step consumes it); ZXMixer::new_frame -> no-op (c19_frame_end_pads_to_full_frame); ZXScreen::process_clocks -> no-op
@@ -1660,6 +1736,9 @@ mod c19 {
         let data: u8 = kani::any();
         let before = bh::levels(&c.mixer.beeper);
         kani::assert(before == (false, false), "c19.port.initial_level_low");
+        // any level history: the levels left by earlier writes are arbitrary
+        let (e0, m0): (bool, bool) = (kani::any(), kani::any());
+        bh::set_levels(&mut c.mixer.beeper, e0, m0);
         c.write_io(port, data);
         kani::assert(bh::levels(&c.mixer.beeper) == (data & 0x10 != 0, data & 0x08 != 0), "c19.port.speaker_bit4_mic_bit3");
         let odd: u16 = kani::any();
@@ -1667,6 +1746,7 @@ mod c19 {
         c.write_io(odd, kani::any());
         kani::assert(bh::levels(&c.mixer.beeper) == (data & 0x10 != 0, data & 0x08 != 0), "c19.port.other_ports_leave_level");
         kani::cover!(data & 0x18 == 0x10, "speaker on, MIC off");
+        kani::cover!(e0 && m0 && data & 0x18 == 0x10, "MIC lowered while the speaker stays high");
     }
 
     // @harness
